@@ -111,6 +111,297 @@ def lvref(txt, unrec, where, filt=False):
     return None
 
 
+XF = {"to_uppercase": "XfUniUpper", "to_lowercase": "XfUniLower", "to_ascii_uppercase": "XfAsciiUpper",
+      "to_ascii_lowercase": "XfAsciiLower", "trim": "XfTrim"}
+XF_NOOP = ("as_str", "as_ref", "to_string", "to_owned", "clone")
+INT_MAX = {"u8": 2 ** 8 - 1, "u16": 2 ** 16 - 1, "u32": 2 ** 32 - 1, "u64": 2 ** 64 - 1, "usize": 2 ** 64 - 1, "u128": 2 ** 128 - 1}
+
+
+def rust_lit(body):
+    """The value of a Rust string literal body (between the quotes); None when it uses an escape we do not decode."""
+    out = []
+    i = 0
+    while i < len(body):
+        c = body[i]
+        if c != "\\":
+            out.append(c)
+            i += 1
+            continue
+        if i + 1 >= len(body):
+            return None
+        e = body[i + 1]
+        simple = {"n": "\n", "t": "\t", "r": "\r", "0": "\0", "\\": "\\", '"': '"', "'": "'"}
+        if e in simple:
+            out.append(simple[e])
+            i += 2
+        elif e == "x" and re.match(r"[0-7][0-9a-fA-F]", body[i + 2:i + 4]):
+            out.append(chr(int(body[i + 2:i + 4], 16)))
+            i += 4
+        elif e == "u":
+            m = re.match(r"\{([0-9a-fA-F_]{1,8})\}", body[i + 2:])
+            if not m:
+                return None
+            out.append(chr(int(m.group(1).replace("_", ""), 16)))
+            i += 2 + len(m.group(0))
+        else:
+            return None
+    return "".join(out)
+
+
+def if_chain(b, start):
+    """`if C1 { B1 } else if C2 { B2 } ... [else { Bn }]` starting at b[start:] -> ([(cond, block)], else_block or None, end)."""
+    arms = []
+    i = start
+    while True:
+        m = re.compile(r"\s*if\s+(.*?)\s*\{", re.S).match(b, i)
+        if not m:
+            return None
+        ob = m.end() - 1
+        cb = match_brace(b, ob)
+        arms.append((norm(m.group(1)), b[ob + 1:cb]))
+        m2 = re.compile(r"\s*else\s*").match(b, cb + 1)
+        if not m2:
+            return arms, None, cb + 1
+        j = m2.end()
+        if b.startswith("if", j):
+            i = j
+            continue
+        if j < len(b) and b[j] == "{":
+            ce = match_brace(b, j)
+            return arms, b[j + 1:ce], ce + 1
+        return None
+
+
+def attr_section(repo, G, unrec):
+    W = "attr.rs"
+    try:
+        src = strip_comments(open(os.path.join(repo, "tracing-attributes/src/attr.rs")).read())
+    except OSError:
+        src = ""
+        unrec.append("%s: file not found" % W)
+    # -- the internal enum and what each variant expands to
+    variants = []
+    for mt, body, _, _ in find_blocks(src, r"pub\(crate\) enum Level\s*\{"):
+        variants = [norm(v) for v in body.split(",") if norm(v)]
+    if sorted(variants) != sorted(["Trace", "Debug", "Info", "Warn", "Error", "Path(Path)"]):
+        unrec.append("%s: enum Level variants `%s`" % (W, ", ".join(variants)))
+    tok = {}
+    passthrough = False
+    seen_tt = False
+    for mt, body, _, _ in find_blocks(src, r"impl ToTokens for Level\s*\{"):
+        fs = fns_in(body).get("to_tokens")
+        if not fs or fs[1] is None:
+            continue
+        mm = re.search(r"match self \{", fs[1])
+        if not mm:
+            continue
+        seen_tt = True
+        ob = fs[1].find("{", mm.start())
+        cb = match_brace(fs[1], ob)
+        if norm(fs[1][:mm.start()]) or norm(fs[1][cb + 1:]):
+            unrec.append("%s: ToTokens for Level: code around the match" % W)
+        for p, e in match_arms(fs[1][ob + 1:cb]):
+            m1 = re.fullmatch(r"Level::([A-Z][a-z]+)", p)
+            m2 = re.fullmatch(r"tokens\.extend\(quote!\(tracing::Level::([A-Z]+)\)\)", e)
+            m3 = re.fullmatch(r"Level::Path\(ref (\w+)\)", p)
+            m4 = re.fullmatch(r"tokens\.extend\(quote!\(#(\w+)\)\)", e)
+            if m1 and m2 and m2.group(1) in LV and m1.group(1) not in tok:
+                tok[m1.group(1)] = LV[m2.group(1)]
+            elif m3 and m4 and m3.group(1) == m4.group(1):
+                passthrough = True
+            else:
+                unrec.append("%s: ToTokens arm `%s => %s`" % (W, p, e))
+    if not seen_tt:
+        unrec.append("%s: impl ToTokens for Level not found" % W)
+    for v in INNER:
+        if v not in tok:
+            unrec.append("%s: ToTokens has no arm for Level::%s" % (W, v))
+
+    def variant(e, where):
+        m = re.fullmatch(r"Ok\((?:Level|Self)::([A-Z][a-z]+)\)", e)
+        if m and m.group(1) in tok:
+            return tok[m.group(1)]
+        unrec.append("%s: %s: result `%s`" % (W, where, e))
+        return None
+
+    xfs, names, ints, int_max, path_arm = [], [], [], 0, False
+    found = False
+    for mt, body, _, _ in find_blocks(src, r"impl Parse for Level\s*\{"):
+        fs = fns_in(body).get("parse")
+        if not fs or fs[1] is None:
+            continue
+        found = True
+        b = fs[1]
+        pro = re.compile(r"\s*let _ = input\.parse::<kw::level>\(\)\?;\s*let _ = input\.parse::<Token!\[=\]>\(\)\?;\s*"
+                         r"let lookahead = input\.lookahead1\(\);").match(b)
+        if not pro:
+            unrec.append("%s: Parse for Level: prologue" % W)
+            break
+        ch = if_chain(b, pro.end())
+        if not ch or norm(b[ch[2]:]):
+            unrec.append("%s: Parse for Level: if/else chain" % W)
+            break
+        arms, els, _ = ch
+        if [c for c, _ in arms] != ["lookahead.peek(LitStr)", "lookahead.peek(LitInt)", "lookahead.peek(Ident)"]:
+            unrec.append("%s: Parse for Level: branch conditions `%s`" % (W, "; ".join(c for c, _ in arms)))
+            break
+        if els is None or norm(els) != "Err(lookahead.error())":
+            unrec.append("%s: Parse for Level: final else `%s`" % (W, norm(els or "")))
+        # string branch
+        nb = norm(arms[0][1])
+        m = re.match(r"let (\w+): LitStr = input\.parse\(\)\?; match (.+?) \{", nb)
+        if not m:
+            unrec.append("%s: string branch shape" % W)
+        else:
+            ob = m.end() - 1
+            cb = match_brace(nb, ob)
+            if nb[cb + 1:].strip():
+                unrec.append("%s: string branch: code after the match" % W)
+            sc = re.fullmatch(re.escape(m.group(1)) + r"\.value\(\)((?:\.\w+\(\))*)", m.group(2))
+            if not sc:
+                unrec.append("%s: string scrutinee `%s`" % (W, m.group(2)))
+            else:
+                for meth in re.findall(r"\.(\w+)\(\)", sc.group(1)):
+                    if meth in XF:
+                        xfs.append(XF[meth])
+                    elif meth not in XF_NOOP:
+                        unrec.append("%s: string scrutinee method `%s`" % (W, meth))
+            fall = False
+            for p, e in match_arms(nb[ob + 1:cb]):
+                m1 = re.fullmatch(r'(\w+) if \1\.eq_ignore_ascii_case\("((?:[^"\\]|\\.)*)"\)', p)
+                m2 = re.fullmatch(r'(\w+) if \1 == "((?:[^"\\]|\\.)*)"', p)
+                m3 = re.fullmatch(r'"((?:[^"\\]|\\.)*)"', p)
+                if fall:
+                    unrec.append("%s: string arm after the catch-all `%s`" % (W, p))
+                elif m1 or m2 or m3:
+                    lit = rust_lit((m1 or m2).group(2) if (m1 or m2) else m3.group(1))
+                    v = variant(e, "string arm %s" % p)
+                    if lit is None:
+                        unrec.append("%s: string arm literal `%s`" % (W, p))
+                    elif v:
+                        names.append(("ic" if m1 else "ex", lit, v))
+                elif p == "_":
+                    fall = True
+                    if not e.startswith("Err("):
+                        unrec.append("%s: string catch-all `%s`" % (W, e[:60]))
+                else:
+                    unrec.append("%s: string arm `%s`" % (W, p))
+            if not fall:
+                unrec.append("%s: string branch has no catch-all error arm" % W)
+        # integer branch
+        nb = norm(arms[1][1])
+        m = re.match(r"fn is_level\(lit: &LitInt, expected: (u\d+|usize)\) -> bool \{ match lit\.base10_parse::<(u\d+|usize)>\(\) \{ "
+                     r"Ok\(value\) => value == expected, Err\(_\) => false,? \} \} let (\w+): LitInt = input\.parse\(\)\?; match &?(\w+) \{", nb)
+        if not m or m.group(1) != m.group(2) or m.group(3) != m.group(4) or m.group(1) not in INT_MAX:
+            unrec.append("%s: integer branch shape" % W)
+        else:
+            int_max = INT_MAX[m.group(1)]
+            ob = m.end() - 1
+            cb = match_brace(nb, ob)
+            if nb[cb + 1:].strip():
+                unrec.append("%s: integer branch: code after the match" % W)
+            fall = False
+            for p, e in match_arms(nb[ob + 1:cb]):
+                m1 = re.fullmatch(r"(\w+) if is_level\(\1, (\d+)\)", p)
+                if fall:
+                    unrec.append("%s: integer arm after the catch-all `%s`" % (W, p))
+                elif m1:
+                    v = variant(e, "integer arm %s" % p)
+                    if v:
+                        ints.append("(%s, %s)" % (m1.group(2), v))
+                elif p == "_":
+                    fall = True
+                    if not e.startswith("Err("):
+                        unrec.append("%s: integer catch-all `%s`" % (W, e[:60]))
+                else:
+                    unrec.append("%s: integer arm `%s`" % (W, p))
+            if not fall:
+                unrec.append("%s: integer branch has no catch-all error arm" % W)
+        # path branch
+        if norm(arms[2][1]) == "Ok(Self::Path(input.parse()?))":
+            path_arm = True
+        else:
+            unrec.append("%s: path branch `%s`" % (W, norm(arms[2][1])))
+    if not found:
+        unrec.append("%s: impl Parse for Level not found" % W)
+    G.append("(* tracing-attributes/src/attr.rs: `impl Parse for Level` composed with `impl ToTokens for Level`.\n"
+             "   scrutinee: the transformations applied to `str.value()` before matching; name arms in source order. *)")
+    G.append("Definition gen_attr_scrutinee : list strxf :=\n  [" + "; ".join(xfs) + "].")
+    G.append("Definition gen_attr_name_arms : list (bool * list N * lv) :=\n  [" + "; ".join(
+        "(%s, %s, %s)" % ("true" if k == "ex" else "false", coq_bytes(s), v) for k, s, v in names) + "].")
+    G.append("Definition gen_attr_int_max : N := %d." % int_max)
+    G.append("Definition gen_attr_int_arms : list (N * lv) :=\n  [" + "; ".join(ints) + "].")
+    G.append("Definition gen_attr_path_passthrough : bool := %s." % ("true" if (path_arm and passthrough) else "false"))
+
+
+def publisher_section(repo, md, G, unrec):
+    W = "callsite.rs"
+    try:
+        cs = strip_comments(open(os.path.join(repo, "tracing-core/src/callsite.rs")).read())
+    except OSError:
+        cs = ""
+    inner = None
+    for mt, body, _, _ in find_blocks(cs, r'#\[cfg\(feature = "std"\)\]\s*mod inner\s*\{'):
+        inner = body
+    init, nohint, upd, exclusive = "None", "None", [], False
+    if inner is None:
+        unrec.append("%s: std `mod inner` not found" % W)
+    else:
+        fs = fns_in(inner)
+        rb = fs.get("rebuild_interest")
+        pat = (r"let mut max_level = (LevelFilter::[A-Z]+); dispatchers\.retain\(\|registrar\| \{ if let Some\(dispatch\) = registrar\.upgrade\(\) \{ "
+               r"let level_hint = dispatch\.max_level_hint\(\)\.unwrap_or\((LevelFilter::[A-Z]+)\); "
+               r"if (level_hint|max_level) (<|<=|>|>=) (level_hint|max_level) \{ max_level = level_hint; \} true \} else \{ false \} \}\); "
+               r"callsites\.for_each\(\|reg\| rebuild_callsite_interest\(dispatchers, reg\.callsite\)\); LevelFilter::set_max\(max_level\);")
+        m = re.fullmatch(pat, norm(rb[1])) if rb and rb[1] is not None else None
+        if not m or m.group(3) == m.group(5):
+            unrec.append("%s: rebuild_interest body" % W)
+        else:
+            init = lvref(m.group(1), unrec, "rebuild_interest initial value", True) or "None"
+            nohint = lvref(m.group(2), unrec, "rebuild_interest unwrap_or", True) or "None"
+            upd.append("(%s, %s)" % (REL[m.group(4)], "true" if m.group(3) == "level_hint" else "false"))
+        # single writer: MAX_LEVEL is stored to only by set_max; set_max (pub(crate)) is called only by rebuild_interest, whose
+        # `&mut Vec<Registrar>` parameter can only come from the write guard; every caller takes `REGISTRY.dispatchers.write()`.
+        ok = True
+        why = []
+        uses = re.findall(r"MAX_LEVEL\.(\w+)\(", md)
+        if sorted(uses) != ["load", "swap"]:
+            ok = False
+            why.append("MAX_LEVEL is accessed by %s" % uses)
+        if not re.search(r"static MAX_LEVEL: AtomicUsize = AtomicUsize::new\(LevelFilter::OFF_USIZE\);", md):
+            ok = False
+            why.append("MAX_LEVEL initialiser")
+        if len(re.findall(r"\bpub\(crate\) fn set_max\(", md)) != 1:
+            ok = False
+            why.append("set_max is not pub(crate)")
+        if len(re.findall(r"LevelFilter::set_max\(", inner)) != 1 or not (rb and rb[1] and "LevelFilter::set_max(" in rb[1]):
+            ok = False
+            why.append("set_max call sites in std mod inner")
+        if not (rb and re.search(r"dispatchers: &mut Vec<dispatch::Registrar>\)\s*$", norm(rb[0]))):
+            ok = False
+            why.append("rebuild_interest does not take `&mut Vec<Registrar>`: `%s`" % (norm(rb[0]) if rb else "?"))
+        callers = [n for n, (sig, body) in fs.items() if body and n != "rebuild_interest" and re.search(r"\brebuild_interest\(", body)]
+        if sorted(callers) != ["rebuild_interest_cache", "register_dispatch"]:
+            ok = False
+            why.append("callers of rebuild_interest: %s" % callers)
+        for n in callers:
+            nb = norm(fs[n][1])
+            if not (re.search(r"let mut dispatchers = REGISTRY\.dispatchers\.write\(\)\.unwrap\(\);", nb)
+                    and re.search(r"rebuild_interest\(callsites, &mut dispatchers\);", nb)):
+                ok = False
+                why.append("%s does not hold the dispatcher registry's write lock around rebuild_interest" % n)
+        exclusive = ok
+        if not ok:
+            unrec.append("%s: the published maximum has no single serialised writer: %s" % (W, "; ".join(why)))
+    G.append("(* tracing-core/src/callsite.rs (std): rebuild_interest folds the live dispatchers' hints and publishes the result.\n"
+             "   update = (REL, hint_on_the_left): `if level_hint REL max_level { max_level = level_hint }`. *)")
+    G.append("Definition gen_pub_init : option lv := %s." % init)
+    G.append("Definition gen_pub_nohint : option lv := %s." % nohint)
+    G.append("Definition gen_pub_update : list (rel * bool) :=\n  [" + "; ".join(upd) + "].")
+    G.append("(* set_max has one caller, which runs under the dispatcher registry's exclusive lock *)")
+    G.append("Definition gen_pub_exclusive : bool := %s." % ("true" if exclusive else "false"))
+
+
 def main(repo, out):
     unrec = []
     md = strip_comments(open(os.path.join(repo, "tracing-core/src/metadata.rs")).read())
@@ -438,6 +729,14 @@ def main(repo, out):
     G.append("Definition gen_level_as_trace : list (lv * lv) :=\n  [" + "; ".join(conv(r"impl AsTrace for log::Level\s*\{", "as_trace", True, False, "log::Level::as_trace")) + "].")
     G.append("Definition gen_filter_as_log : list (option lv * option lv) :=\n  [" + "; ".join(conv(r"impl AsLog for tracing_core::LevelFilter\s*\{", "as_log", False, True, "LevelFilter::as_log")) + "].")
     G.append("Definition gen_filter_as_trace : list (option lv * option lv) :=\n  [" + "; ".join(conv(r"impl AsTrace for log::LevelFilter\s*\{", "as_trace", True, True, "log::LevelFilter::as_trace")) + "].")
+
+    # 12. the third parser of level names in the tree: tracing-attributes/src/attr.rs `impl Parse for Level`
+    #     (`#[instrument(level = ..)]`, `err(level = ..)`, `ret(level = ..)`), composed with `impl ToTokens for Level`
+    #     (which says what tracing level each internal variant denotes).
+    attr_section(repo, G, unrec)
+
+    # 13. who publishes the maximum level: tracing-core/src/callsite.rs (std `mod inner`) rebuild_interest
+    publisher_section(repo, md, G, unrec)
 
     G.append("Definition gen_unrecognised : list string :=\n  [" + "; ".join(coq_str(u) for u in unrec) + "].")
     text = "\n".join(G) + "\n"
